@@ -352,6 +352,25 @@ fn cmd_shrink(args: &[String]) -> i32 {
             }
         }
     }
+    // 1b. shrink inside the remaining prelude cases
+    'pin: loop {
+        for pi in 0..prelude.len() {
+            for cand in check.shrink(&prelude[pi]) {
+                if spent >= budget {
+                    break 'pin;
+                }
+                spent += 1;
+                let mut p2 = prelude.clone();
+                p2[pi] = cand;
+                if keys_of(&mut check, &p2, &cur, timeout_ms).iter().any(|k| *k == want) {
+                    prelude = p2;
+                    steps += 1;
+                    continue 'pin;
+                }
+            }
+        }
+        break;
+    }
     // 2. the case itself
     'outer: loop {
         let cands = check.shrink(&cur);
